@@ -431,8 +431,10 @@ def disambiguate_matching(rain_intervals, jump_intervals):
         for (rain_start, _), (jump_start, _) in zip(rain_intervals, jump_intervals)
     ]
     duration_differences = {
+        # Durations in time steps: a jump interval [start, stop) holds
+        # stop - start head values, which span stop - start - 1 steps
         (rain_start, jump_start): float(
-            (rain_stop - rain_start) - (jump_stop - jump_start)
+            (rain_stop - rain_start) - (jump_stop - 1 - jump_start)
         )
         for (rain_start, rain_stop), (jump_start, jump_stop) in zip(
             rain_intervals, jump_intervals
